@@ -408,6 +408,13 @@ func (e *eng) checkC27() {
 			if p.Method == "HEAD" || r.Status == 204 || r.Status == 304 {
 				wantBody = nil
 			}
+			if m.Framing == "close" && cr.Closed && s.Faults.Get("write_deadline") > 0 && bytes.HasPrefix(wantBody, m.Body) {
+				// BFE gave a slow client up when its write deadline ran out; a body that is
+				// delimited by the close of the connection (HTTP/1.0 client) offers no other
+				// way to say so than that close
+				s.Probe("c27_close_delimited_cut_by_write_deadline")
+				continue
+			}
 			if !bytes.Equal(m.Body, wantBody) {
 				s.FailK("C27.body", "body-differs", "req %d (%s, backend framing %s): backend body %d bytes, client got %d bytes (%q vs %q)", p.ID, p.Method, r.Framing, len(wantBody), len(m.Body), clip(wantBody, 60), clip(m.Body, 60))
 				return
